@@ -85,7 +85,7 @@ class TimedList(Generic[Item]):
             A ``TimedList`` if it's a non-int, else ``Timed`` object.
 
         """
-        if isinstance(item, int):
+        if isinstance(item, (int, np.integer)):
             return self._item_class()(**self.df.iloc[item].to_dict())
         else:
             return self.__class__(self.df[item])
